@@ -750,6 +750,61 @@ func completionAgree(p *core.Prog, r *core.Result, sp *ssa.Package, ctxNamed *ty
 		}
 	}
 
+	// UNKNOWN-LEN-CLAMP: all slice start handlers treat an unknown (negative) announced length as 0, so that a
+	// target that already holds elements is emptied before the stream's elements are stored (17 siblings: the
+	// 16 generated ones and the reflective one). The length that truncates the target is the clamped value
+	// (a phi of the parameter and 0), never the raw parameter behind some other guard.
+	{
+		cnt := 0
+		for _, f := range p.ModFuncs() {
+			pk := core.FuncPkg(f)
+			if pk == nil || pk.Name() != "gotype" || f.Name() != "OnArrayStart" || len(f.Params) < 3 {
+				continue
+			}
+			var lprm *ssa.Parameter
+			for _, prm := range f.Params[1:] {
+				if bt, ok := prm.Type().(*types.Basic); ok && bt.Kind() == types.Int {
+					lprm = prm
+				}
+			}
+			if lprm == nil {
+				continue
+			}
+			var trunc []ssa.Value
+			for _, b := range f.Blocks {
+				for _, in := range b.Instrs {
+					switch x := in.(type) {
+					case *ssa.Slice:
+						if x.High != nil {
+							trunc = append(trunc, x.High)
+						}
+					case *ssa.Call:
+						if sc := x.Common().StaticCallee(); sc != nil && sc.Name() == "SetLen" && funcPkgPath(sc) == "reflect" && len(x.Common().Args) == 2 {
+							trunc = append(trunc, x.Common().Args[1])
+						}
+					}
+				}
+			}
+			if len(trunc) == 0 {
+				continue
+			}
+			cnt++
+			bad := false
+			for _, v := range trunc {
+				if v == ssa.Value(lprm) {
+					bad = true
+				}
+			}
+			fkey := core.FuncKey(f)
+			if bad {
+				r.Fail(".UNKNOWN-LEN-CLAMP", fkey+"|len", p.Pos(f.Pos()), fkey+" truncates the target with the raw announced length instead of the length clamped to 0 for 'unknown' (-1), unlike its sibling slice unfolders: for a producer that does not know the length (the JSON parser) elements the target already held survive behind the stream's elements", "")
+			} else {
+				r.Ok(".UNKNOWN-LEN-CLAMP", p.Pos(f.Pos()), fkey+": truncates the target with the clamped length")
+			}
+		}
+		r.Floor("slice_start_handlers", cnt, 15)
+	}
+
 	// INIT-BALANCE: an event that removes every unfolder frame its state's
 	// initialiser pushed completes the value; it must then also remove
 	// everything else the initialiser pushed (pointer, value, index, ...).
